@@ -62,9 +62,9 @@ var hotBytes = []byte{
 // ---- (d) nesting ladders --------------------------------------------------------------------
 
 type ladder struct {
-	Name              string
-	Head, Open, Core  string
-	Close, Tail       string
+	Name             string
+	Head, Open, Core string
+	Close, Tail      string
 }
 
 var ladders = []ladder{
